@@ -103,3 +103,20 @@ Fixpoint spec_ops (M : list N) (ops : list rop) : list bool :=
   | RMark c :: r => spec_ops (c :: M) r
   | RCheck c :: r => fresh_b M c :: spec_ops M r
   end.
+
+(* ---- the receive path as the transport uses the filter: per datagram (counter, authentic?).
+   readPacketLocked: Check, then AEAD open (succeeds iff authentic), Mark only after success; so a
+   datagram that does not authenticate is rejected and leaves the window unchanged. ---- *)
+Fixpoint run_through (s : win) (l : list (N * bool)) : list bool :=
+  match l with
+  | [] => []
+  | (c, true) :: r => let '(s', b) := accept s c in b :: run_through s' r
+  | (_, false) :: r => false :: run_through s r
+  end.
+
+Fixpoint spec_through (A : list N) (l : list (N * bool)) : list bool :=
+  match l with
+  | [] => []
+  | (c, true) :: r => if fresh_b A c then true :: spec_through (c :: A) r else false :: spec_through A r
+  | (_, false) :: r => false :: spec_through A r
+  end.
